@@ -135,9 +135,13 @@ def author_ids(rng, tree, mode):
     if mode == "none":
         return
     k = 0
+    odd = rng.random() < 0.25        # one-character and odd-looking ids (an id is a name, never text)
     for n in tree.walk():
         if mode == "all" or (mode in ("some", "dup") and rng.random() < 0.4):
-            n.attrs["id"] = "a%d" % (k if mode != "dup" else k % 2)
+            if odd and mode != "dup":
+                n.attrs["id"] = (list("xyabABn12") + ["é1", "α", "x-1", "a.b", "_", "i", "-"])[k] if k < 16 else "o%d" % k
+            else:
+                n.attrs["id"] = "a%d" % (k if mode != "dup" else k % 2)
             k += 1
 
 
